@@ -16,4 +16,12 @@ def opOrder (j : Json) : R Json := do
   let b ← parseOItem (← fld j "b")
   return Json.bool (itemOrder a b)
 
+/-- `orderSort`: the keys, in order, of the list sorted by the comparator (model of sort.Slice). -/
+def opOrderSort (j : Json) : R Json := do
+  let items ← (← arr (← fld j "items")).mapM parseOItem
+  let ks := (sortBy itemOrder items).map key
+  return Json.arr (ks.map (fun k => match k with
+    | none => Json.str "nil"
+    | some n => Json.str (toString n))).toArray
+
 end Driver
